@@ -45,11 +45,11 @@ Block == { Id(<<0, f, 0, 0>>) : f \in BlockFaces }
 
 \* ---- transcription of serialization.is_first_child / get_stride and compact._sort_key (scaled) ----
 IsFirstChild(i) == LET r == Res(i) IN
-   IF r < 2 THEN (i \div P2(SH)) % (IF r = 0 THEN 12 ELSE 5) = 0
+   IF r < 2 THEN (i \div P2(SH)) % (IF r = 0 THEN NF ELSE NS) = 0       \* 12 and 5 in the code
    ELSE (i \div P2(2 * (MaxRes - r) - 42)) % 4 = 0
 Stride(r) == IF r < 2 THEN P2(SH) ELSE P2(2 * (MaxRes - r) - 42)
-Expected(r) == IF r >= 2 THEN 4 ELSE IF r = 0 THEN 12 ELSE 5
-SortKey(i) == IF Res(i) = 0 THEN i + (4 * (i \div P2(SH))) * P2(SH) ELSE i
+Expected(r) == IF r >= 2 THEN 4 ELSE IF r = 0 THEN NF ELSE NS             \* 4 / 12 / 5 in the code
+SortKey(i) == IF Res(i) = 0 THEN i + ((NS - 1) * (i \div P2(SH))) * P2(SH) ELSE i      \* 4 * face in the code (NS = 5)
 KeyLess(a, b) == IF SortMode = "hier" THEN SortKey(a) < SortKey(b) ELSE a < b
 
 RECURSIVE Scan(_, _, _)
@@ -105,7 +105,8 @@ Spec == Init /\ [][Next]_vars
 Ran == phase \in {"ran", "wide"}
 Result == ToSet(Last(alg))
 AlgIsCanon == Ran /\ IsAntichain(input) => Result = Canon(input)                 \* C09
-AlgNoDup == Ran => Len(Last(alg)) = Cardinality(Result)                           \* C09
+AlgNoDup == Ran /\ IsAntichain(input) => Len(Last(alg)) = Cardinality(Result)      \* C09 (antichains only: for an input that
+                                                                                   \* holds a cell AND all its children the merged parent appears twice)
 AlgNoGroup == Ran /\ IsAntichain(input) => \A i \in Result : Res(i) >= 0 /\ FullGroup(i) => ~(SibsOf(i) \subseteq Result)
 AlgCover == Ran => Canon(Norm(Result)) = Canon(Norm(input))                       \* C08
 AlgShrinks == Ran => \A k \in 1..Len(alg)-1 : Len(alg[k+1]) <= Len(alg[k])        \* termination variant
